@@ -1,5 +1,5 @@
 use super::tag::{SyntheticTag, TagInner};
-use super::{utc_timestamp, Annotation, Status, Tag, Timestamp};
+use super::{Annotation, Status, Tag, Timestamp};
 use crate::depmap::DependencyMap;
 use crate::errors::{Error, Result};
 use crate::storage::TaskMap;
@@ -206,9 +206,13 @@ impl Task {
     pub fn get_annotations(&self) -> impl Iterator<Item = Annotation> + '_ {
         self.data.iter().filter_map(|(k, v)| {
             if let Some(ts) = k.strip_prefix("annotation_") {
-                if let Ok(ts) = ts.parse::<i64>() {
+                if let Some(entry) = ts
+                    .parse::<i64>()
+                    .ok()
+                    .and_then(|ts| chrono::DateTime::from_timestamp(ts, 0))
+                {
                     return Some(Annotation {
-                        entry: utc_timestamp(ts),
+                        entry,
                         description: v.to_owned(),
                     });
                 }
@@ -551,7 +555,8 @@ impl Task {
     pub fn get_timestamp(&self, property: &str) -> Option<Timestamp> {
         if let Some(ts) = self.data.get(property) {
             if let Ok(ts) = ts.parse() {
-                return Some(utc_timestamp(ts));
+                // a value outside the representable range is not a valid timestamp either
+                return chrono::DateTime::from_timestamp(ts, 0);
             }
             // if the value does not parse as an integer, default to None
         }
